@@ -551,6 +551,12 @@ func (lr *lifeRun) execOp(t *Toks) error {
 			}
 			lr.wp.ask("logrelease", "logpark", 3*time.Second)
 		}
+	case "stoptimer":
+		if _, ok := lr.wp.ask("stopafter "+t.Next(), "stopafter", 3*time.Second); !ok {
+			return fmt.Errorf("stopafter not acknowledged")
+		}
+	case "stopwait":
+		lr.stopCalled = true // the timer armed earlier calls Stop
 	case "sleep":
 		ms, _ := strconv.Atoi(t.Next())
 		time.Sleep(time.Duration(ms) * time.Millisecond)
@@ -731,7 +737,7 @@ func runLife(t *Toks) string {
 		switch p[0] {
 		case "recovery", "onclose", "unbind":
 			opts = append(opts, kv)
-		case "tls", "addr", "readtimeout", "dflt", "stopdelay":
+		case "tls", "addr", "readtimeout", "dflt", "stopdelay", "nopark":
 			opts = append(opts, kv)
 		case "race":
 			race = p[1] == "1"
